@@ -121,6 +121,10 @@ def extract():
 
 # ------------------------------------------------------------------------------- generator
 INVALID = ["S", "E", "W", "G", "I", "T", "X", "x", "A"]
+# explicit assigned-shard lists (the harness's manifests carry shares 1,2,3; 1,2 with flag T): members, non-members,
+# aliases of carried indices mod 32 / 64 / 128, 0, 255, duplicates
+ASSIGNED = ["1", "2", "3", "1,2,3", "3,3,2", "1,1", "-", "4", "0", "255", "64", "65", "66", "67", "129", "130", "131", "193", "194",
+            "33", "34", "35", "97", "2,66", "1,65", "3,131,3", "1,2,3,4", "0,64", "128", "192", "63", "127"]
 CONFIGS = [
     (15, 120, 4), (1, 1, 1), (2, 10, 3), (5, 5, 2), (1, 4, 2), (3, 9, 3), (0, 0, 0), (-5, -1, 0), (1, 3600, 5),
     (3600, 7200, 2), (4000, 10, 5), (10, 2, 3), (1, 2, 1), (60, 120, 2), (7, 30, 100),
@@ -152,7 +156,7 @@ def _sanitised(mi, bw, bl):
 
 
 def gen_case(rng, big=False) -> Case:
-    shape = rng.choice(["mixed", "mixed", "steady", "burst", "lockout", "lockout", "relock", "relock", "invalid-kinds", "huge", "cfgonly"])
+    shape = rng.choice(["mixed", "mixed", "steady", "burst", "lockout", "lockout", "relock", "relock", "invalid-kinds", "assigned", "huge", "cfgonly"])
     if shape == "cfgonly":
         ops = []
         for _ in range(rng.randint(1, 4)):
@@ -171,9 +175,11 @@ def gen_case(rng, big=False) -> Case:
     marks = {p: [] for p in peers}      # times of this peer's announces (steering only)
     mtok = 0
 
-    def ann(p, flags="-", ver=4):
+    def ann(p, flags="-", ver=4, assigned=None):
         nonlocal mtok
         mtok = (mtok + 1) % 200
+        if assigned is None and shape in ("mixed", "steady", "burst") and rng.random() < 0.12:
+            assigned = rng.choice(ASSIGNED)
         mod = ""
         r = rng.random()
         if r < 0.12:
@@ -183,7 +189,7 @@ def gen_case(rng, big=False) -> Case:
         elif r < 0.24:
             mod = "ne"
         f = (flags if flags != "-" else "") + mod
-        ops.append(f"ann {p} {rng.choice(chunks)} {mtok} {f or '-'} {ver}")
+        ops.append(f"ann {p} {rng.choice(chunks)} {mtok} {f or '-'} {ver}" + (f" as={assigned}" if assigned is not None else ""))
         marks[p].append(now)
 
     def adv(d):
@@ -288,6 +294,16 @@ def gen_case(rng, big=False) -> Case:
             adv(rng.choice([0, 1, S, mi * S, 60 * S, 90 * S, max(0, t3 + 180 * S - now - 1), max(0, t3 + 180 * S - now),
                             max(0, t3 + 180 * S - now + 1)]))
             ann(rng.choice(peers) if rng.random() < 0.25 else p, "-" if rng.random() < 0.85 else bad_flags())
+    elif shape == "assigned":
+        # otherwise admissible announces whose assigned-shard list is the only thing that varies; spaced so that
+        # neither the throttle nor a lockout (two good ones between bad ones) interferes
+        for lst in rng.sample(ASSIGNED, rng.randint(6, 12)):
+            p = rng.choice(peers)
+            ann(p, rng.choice(["-", "-", "-", "e", "T"]), rng.choice([4, 4, 3]), assigned=lst)
+            adv(max(mi, 1) * S + rng.choice([0, 1, 130 * S]))
+            if rng.random() < 0.5:
+                ann(p, "-", 4, assigned=rng.choice(["1", "2,3", "-"]))
+                adv(max(mi, 1) * S)
     elif shape == "invalid-kinds":
         for k in rng.sample(INVALID, len(INVALID)):
             p = rng.choice(peers)
